@@ -6,8 +6,9 @@ def gen(ctx, slices=("forest", "arches", "paths", "sections")):
     cases = []
     for sl in slices:
         out = []
-        r = ctx.tlc("ComposeInfoDoc", cfg_text=core.cfg_with("ComposeInfoDoc.cfg", [], {"Slice": sl}), on_emit=out.append,
-                    constants={"Slice": sl}, timeout=1800)
+        consts = {"Slice": sl, "MaxNodes": 4 if (ctx.quick or ctx.prop != "C01") else 6}
+        r = ctx.tlc("ComposeInfoDoc", cfg_text=core.cfg_with("ComposeInfoDoc.cfg", [], consts), on_emit=out.append,
+                    constants=consts, timeout=1800)
         ctx.require_ok(r)
         for c in out:
             c["slice"] = sl
